@@ -180,6 +180,30 @@ def uses_builtin_solver(op):
     return op.get("op") == "call" and op.get("m") in ("solve", "select") and (op.get("a") or {}).get("solver") is None
 
 
+RAW_BUILTIN_TIMEOUT = 10.0
+
+
+def raw_timeout(ops):
+    """wall limit of an execution *without* neutralisers: there the recorded write-back (C09-KF1) may leave a model in a
+    state no pristine reference ever vetted, and the library's built-in (beta) solver need not terminate on it (it runs
+    inside puan_rspy and cannot be interrupted).  No property speaks about that solver's termination, so such an
+    execution gets a short limit and its caller a fallback (see without_builtin_solver)."""
+    if any(uses_builtin_solver(o) for o in ops):
+        return RAW_BUILTIN_TIMEOUT + 0.3 * len(ops)
+    return None
+
+
+def without_builtin_solver(ops):
+    """the same program with every request to the built-in solver served by the scripted peer instead (mode `lower`:
+    answers the lower bounds, always terminates) – the shape of every op and iterator is kept"""
+    out = []
+    for o in ops:
+        if uses_builtin_solver(o):
+            o = dict(o, a=dict(o.get("a") or {}, solver={"mode": "lower"}))
+        out.append(o)
+    return out
+
+
 def reference(ops, k, shims=(), cache=None):
     """O-pristine: what op k returns on freshly built identical objects, in a process with no past."""
     idx = slice_indices(ops, k)
